@@ -392,8 +392,17 @@ func runSimStream(w *bufio.Writer, seed uint64, n int, args []string) {
 		maxSize = 300000
 	}
 	dist := map[string]int{}
+	only := -1
+	for _, a := range args {
+		if strings.HasPrefix(a, "only=") {
+			fmt.Sscanf(a, "only=%d", &only)
+		}
+	}
 	for i := 0; i < n; i++ {
 		c := genSimStreamCase(r, maxSize)
+		if only >= 0 && i != only {
+			continue
+		}
 		fails, info := runOneSimStream(c)
 		dist["client="+c.Client]++
 		dist[fmt.Sprintf("faults=%d", len(c.Faults))]++
